@@ -75,10 +75,18 @@ func C12(run *mon.Run) {
 					rep := map[string]any{"alg": a.alg.String(), "seed": mon.Hex(seed)}
 					var sk crypto.PrivateKey
 					var err error
-					if run.Guard("GeneratePrivateKey", rep, func() { sk, err = crypto.GeneratePrivateKey(a.alg, seed) }) {
+					// the seed is the front of a larger caller buffer (nothing behind it may be written)
+					arg := seed
+					if seed != nil {
+						arg = withSpare(seed)
+					}
+					if run.Guard("GeneratePrivateKey", rep, func() { sk, err = crypto.GeneratePrivateKey(a.alg, arg) }) {
 						continue
 					}
 					run.Eval(1)
+					if seed != nil && !spareIntact(arg, seed) {
+						run.Violate(fmt.Sprintf("C12:seed-buffer-modified:%s", a.alg), fmt.Sprintf("GeneratePrivateKey changed the caller's seed buffer (seed of %d bytes with spare capacity)", l), rep)
+					}
 					inRange := l >= 32 && l <= 256
 					if !inRange {
 						if err == nil || !crypto.IsInvalidInputsError(err) {
